@@ -297,13 +297,15 @@ def resume : List Entry → Ctx → World → Outcome × List Entry × Ctx × Wo
     | .raised x c' w' => let r := unwind (e :: rest) c' w'; (.err x, [], r.1, r.2)
 
 /-- what `aclose()` of a suspended stream unwinds: `GeneratorExit` is thrown into the outermost generator –
-`ctx.stream`'s own wrapper, whose only block is the stream's `async with`.  The source generator it was
-iterating (with whatever blocks and nested streams *it* has open) is merely dereferenced: the loop's
-async-generator finaliser closes it later in a foreign `Context`, where nothing can be reset or finished. -/
+`ctx.stream`'s own wrapper – whose `finally` closes the source generator it was iterating (`await
+source_generator.aclose()`), so the source's open blocks are left innermost first, in the caller's context, and
+then the stream's own `async with`.  A *nested* stream the source was iterating is not closed by anybody (the
+source's `async for` merely drops it): the loop's async-generator finaliser closes it later in a foreign
+`Context`, where nothing can be reset or finished. -/
 def closeEntries (stack : List Entry) : List Entry :=
-  match stack.getLast? with
-  | some e => [e]
-  | none => []
+  match stack.reverse with
+  | [] => []
+  | top :: below => (top :: below.takeWhile (fun e => !e.isStream)).reverse
 
 /-! ## the system -/
 
